@@ -263,11 +263,16 @@ C05_Violations(r) ==
       ordOfKey(k) == (CHOOSE j \in 1..Len(M) : M[j][2] = k)
       applies(m) == m[1] \in {"S", "D", "C", "U", "E"} \/ (m[1] = "B" /\ r.cfg.always_wrap) \/ (m[1] = "T" /\ m[3] = 0)
       \* an enclosing anonymous routine that stayed on its parent's line (deliberate style): walk up the refs
-      inlineAnon[key \in 0..Len(M) + 1] ==
-         IF key = 0 \/ ~(\E j \in 1..Len(M) : M[j][2] = key) THEN FALSE
+      \* the nearest enclosing anonymous routine that stayed on its parent's line (0: none) ...
+      anonOf[key \in 0..Len(M) + 1] ==
+         IF key = 0 \/ ~(\E j \in 1..Len(M) : M[j][2] = key) THEN 0
          ELSE LET m == M[ordOfKey(key)] IN
-              IF m[1] = "A" /\ m[5] < np /\ ~first(m[5]) THEN TRUE
-              ELSE IF m[3] < key THEN inlineAnon[m[3]] ELSE FALSE
+              IF m[1] = "A" /\ m[5] < np /\ ~first(m[5]) THEN key
+              ELSE IF m[3] < key THEN anonOf[m[3]] ELSE 0
+      \* ... which is deliberate only for a small one: at most one statement or declaration in it, nested ones included
+      inlineAnon[key \in 0..Len(M) + 1] ==
+         LET a == anonOf[key] IN
+         a # 0 /\ Cardinality({j \in 1..Len(M) : M[j][1] \in {"S", "U", "D"} /\ M[j][3] <= Len(M) + 1 /\ anonOf[M[j][3]] = a}) <= 1
   IN IF np # r.nplain THEN {}
      ELSE UNION {
        LET m == M[j] IN
